@@ -8,6 +8,7 @@ import (
 	"sort"
 	"strings"
 	"time"
+	"unicode/utf8"
 
 	bs "github.com/danthegoodman1/bloomsearch"
 
@@ -243,11 +244,7 @@ func runC01(rc *RunCtx, i int) {
 	facts := c.w.Facts()
 	qr := r.Split("queries")
 	nq := nQueries(rc.Tier, 40, 60)
-	for k := 0; k < nq; k++ {
-		q := facts.Query(qr)
-		if k == 0 {
-			q = nil // the nil query matches everything
-		}
+	check := func(k int, q *bs.Query, sweep bool) {
 		e := c.w.Eng[qr.Intn(len(c.w.Eng))]
 		rc.Res.Eval(1)
 		rc.Res.Count("queries", 1)
@@ -259,15 +256,15 @@ func runC01(rc *RunCtx, i int) {
 			if res.QErr == nil {
 				rc.Res.Note("query with invalid/unknown regex tree was accepted: " + queryJSON(q))
 			}
-			continue
+			return
 		}
 		if res.QErr != nil {
 			rc.Violate(i, "query-refused", "", "Query returned an error for a valid query: "+res.QErr.Error(), map[string]any{"query": queryJSON(q), "scenario": c.d})
-			continue
+			return
 		}
 		if res.Err != nil {
 			rc.Violate(i, "query-error-on-healthy-stores", "", "Results.Err = "+res.Err.Error(), map[string]any{"query": queryJSON(q), "scenario": c.d})
-			continue
+			return
 		}
 		_, required := c.expected(q)
 		rc.Res.Count("rows_required", int64(len(required)))
@@ -295,12 +292,59 @@ func runC01(rc *RunCtx, i int) {
 				bm = map[string]any{"file": blk.File, "block": blk.Index, "partition": blk.Meta.PartitionID, "minmax": blk.Meta.MinMaxIndexes, "rows": blk.Meta.Rows}
 			}
 			rc.Violate(i, "false-negative", c01Signature(q, rec), fmt.Sprintf("%d stored matching row(s) not returned, e.g. %s", len(missing), core.Trunc(string(rec.JSON), 400)),
-				map[string]any{"query": queryJSON(q), "row": string(rec.JSON), "row_partition": rec.Part, "row_indexed_keys": rec.Keys, "block": bm, "scenario": c.d, "returned": len(res.Rows)})
+				map[string]any{"query": queryJSON(q), "row": string(rec.JSON), "row_partition": rec.Part, "row_indexed_keys": rec.Keys, "block": bm, "scenario": c.d, "returned": len(res.Rows), "entry_sweep": sweep})
 		}
-		if k < 2 && i < 2 {
+		if !sweep && k < 2 && i < 2 {
 			rc.Res.Sample(map[string]any{"scenario": c.d, "query": queryJSON(q), "required": len(required), "returned": len(res.Rows)})
 		}
 	}
+	for k := 0; k < nq; k++ {
+		q := facts.Query(qr)
+		if k == 0 {
+			q = nil // the nil query matches everything
+		}
+		check(k, q, false)
+	}
+	// Entry sweep: every distinct index entry the stored rows produce (field
+	// paths, tokens, field:token pairs; a PRNG sample beyond the cap) is looked
+	// up on its own, so a row lost to exactly one damaged filter entry cannot
+	// hide behind the sampling of the generated queries.
+	sr := r.Split("sweep")
+	capT, capF, capP := nQueries(rc.Tier, 60, 300), nQueries(rc.Tier, 20, 100), nQueries(rc.Tier, 60, 300)
+	for _, t := range sampleStrings(sr, facts.Tokens, capT) {
+		if utf8.ValidString(t) {
+			rc.Res.Count("sweep_token_queries", 1)
+			check(-1, bs.NewQuery().Token(t).Build(), true)
+		}
+	}
+	for _, f := range sampleStrings(sr, facts.Fields, capF) {
+		if utf8.ValidString(f) && f != "" {
+			rc.Res.Count("sweep_field_queries", 1)
+			check(-1, bs.NewQuery().Field(f).Build(), true)
+		}
+	}
+	pidx := sr.Perm(len(facts.Pairs))
+	for n, j := range pidx {
+		if n >= capP {
+			break
+		}
+		p := facts.Pairs[j]
+		if utf8.ValidString(p[0]) && utf8.ValidString(p[1]) && p[0] != "" {
+			rc.Res.Count("sweep_pair_queries", 1)
+			check(-1, bs.NewQuery().FieldToken(p[0], p[1]).Build(), true)
+		}
+	}
+}
+
+func sampleStrings(r *core.Rand, all []string, n int) []string {
+	if len(all) <= n {
+		return all
+	}
+	out := make([]string, 0, n)
+	for _, j := range r.Perm(len(all))[:n] {
+		out = append(out, all[j])
+	}
+	return out
 }
 
 // c01Signature classifies a false negative structurally (for known findings).
